@@ -238,11 +238,25 @@ func (c *converter) syncPartial() {
 	for _, ing := range dirtyIngs {
 		ingMap[ing] = nil
 	}
+	ingChanged := make(map[string]bool, len(c.changed.IngressesDel)+len(c.changed.IngressesUpd))
 	for _, ing := range c.changed.IngressesDel {
-		delete(ingMap, ing.Namespace+"/"+ing.Name)
+		name := ing.Namespace + "/" + ing.Name
+		delete(ingMap, name)
+		ingChanged[name] = true
+	}
+	for _, ing := range c.changed.IngressesUpd {
+		ingChanged[ing.Namespace+"/"+ing.Name] = true
 	}
 	for _, ing := range c.changed.IngressesAdd {
-		ingMap[ing.Namespace+"/"+ing.Name] = ing
+		name := ing.Namespace + "/" + ing.Name
+		if ingChanged[name] {
+			// added and also updated or deleted in the same batch: the added object
+			// might be outdated or missing, and the order of the events is unknown here,
+			// so let the cache say if it still exists and what is its current state
+			ingMap[name] = nil
+		} else {
+			ingMap[name] = ing
+		}
 	}
 	ingList := make([]*networking.Ingress, 0, len(ingMap))
 	for name, ing := range ingMap {
